@@ -96,6 +96,10 @@ std::unique_ptr<NodeResult> CallNode::evaluate(PSC::Context &ctx) {
                 throw PSC::ArrayDirectAccessError(token, ctx);
 
             PSC::Variable &original = *static_cast<PSC::Variable*>(&holder);
+            // the argument was evaluated once for the type check above and is resolved a second time here:
+            // the variable that is actually bound must have the parameter's type as well
+            if (original.type != parameter.type)
+                throw PSC::InvalidArgsError(token, ctx, procedure->getTypes(), std::move(argTypes));
             var = original.createReference(parameter.name);
         } else {
             var = new PSC::Variable(parameter.name, argRes->type, false, procedureCtx.get());
